@@ -265,23 +265,34 @@ def typeProduct (F : Nat) (c : Ctx) (l r : Nat) : M (Ctx × Nat) :=
 
 /-! ### finalisation -/
 
-/-- `DagLike::as_dag_node` for `(ctx, BoundRef)`: the roots of both children (path halving) -/
+/-- the roots of the two children of a sum/product bound (path halving), left first -/
+def childRoots (F : Nat) (c : Ctx) (t1 t2 : Nat) : M (Ctx × Option (Nat × Nat)) :=
+  match rootRef F c t1 with
+  | .error e => .error e
+  | .ok (c, r1) =>
+  match rootRef F c t2 with
+  | .error e => .error e
+  | .ok (c, r2) => .ok (c, some (r1, r2))
+
+/-- `DagLike::as_dag_node` for `(ctx, BoundRef)`: `Nullary` for free and complete bounds, otherwise
+`Binary` of the roots of both children -/
 def dagChildren (F : Nat) (c : Ctx) (b : Nat) : M (Ctx × Option (Nat × Nat)) :=
   match getBound c b with
   | .error e => .error e
-  | .ok (.sum t1 t2) | .ok (.product t1 t2) =>
-    match rootRef F c t1 with
-    | .error e => .error e
-    | .ok (c, r1) =>
-    match rootRef F c t2 with
-    | .error e => .error e
-    | .ok (c, r2) => .ok (c, some (r1, r2))
+  | .ok (.sum t1 t2) => childRoots F c t1 t2
+  | .ok (.product t1 t2) => childRoots F c t1 t2
   | .ok _ => .ok (c, none)
 
 inductive OcItem
   | iterate (b : Nat)
   | complete (b : Nat)
 deriving DecidableEq, Repr
+
+/-- `if let Some((_, child)) = (ctx, bound).right_child()/left_child() { stack.push(Iterate(child)) }` -/
+def pushChild (sel : Nat × Nat → Nat) (ch : Option (Nat × Nat)) (stack : List OcItem) : List OcItem :=
+  match ch with
+  | some p => .iterate (sel p) :: stack
+  | none => stack
 
 /-- the loop of `Incomplete::occurs_check`; head of the list = top of the Rust `Vec` stack;
 `inProgress`/`completed` are the two hash sets -/
@@ -301,47 +312,41 @@ def occursLoop (F : Nat) : Nat → Ctx → List OcItem → List Nat → List Nat
       match dagChildren F c b with
       | .error e => .error e
       | .ok (c, chL) =>
-        let stack := OcItem.complete b :: stack
-        let stack := match chR with | some (_, r) => OcItem.iterate r :: stack | none => stack
-        let stack := match chL with | some (l, _) => OcItem.iterate l :: stack | none => stack
-        occursLoop F n c stack (b :: inProgress) completed
+        -- push `Complete(id)`, then the right child, then the left child
+        occursLoop F n c (pushChild Prod.fst chL (pushChild Prod.snd chR (.complete b :: stack)))
+          (b :: inProgress) completed
 
 /-- `Incomplete::occurs_check`: `.error .occurs` = `Some(Cycle)` -/
 def occursCheck (F : Nat) (c : Ctx) (b : Nat) : M Ctx :=
   occursLoop F F c [.iterate b] [] []
 
+/-- what `Type::finalize` does with a node when the post-order iterator yields it: the bound is read
+again (`bound_get`), `Free ↦ unit`, `Complete ↦` its data, `Sum/Product ↦` the sum/product of the
+finalised children; unless it was complete already the result is written back -/
+def finalizeYield (c : Ctx) (b : Nat) (dl dr : Ty) : M (Ctx × Ty) :=
+  match getBound c b with
+  | .error e => .error e
+  | .ok .free => .ok (setBound c b (.complete .one), .one)
+  | .ok (.complete d) => .ok (c, d)
+  | .ok (.sum _ _) => .ok (setBound c b (.complete (.sum dl dr)), .sum dl dr)
+  | .ok (.product _ _) => .ok (setBound c b (.complete (.prod dl dr)), .prod dl dr)
+
 /-- the post-order loop of `Type::finalize` (`post_order_iter::<NoSharing>` over bound refs): a node
-is expanded through `as_dag_node`, its children are finalised left to right, then it is yielded,
-its final type computed (`Free ↦ unit`) and written back as `Bound::Complete` -/
+is expanded through `as_dag_node` (both child roots), its children are finalised left to right, then
+it is yielded (`finalizeYield`) -/
 def finalizeRec (F : Nat) : Nat → Ctx → Nat → M (Ctx × Ty)
   | 0, _, _ => .error .fuel
   | f+1, c, b =>
-    match getBound c b with
+    match dagChildren F c b with
     | .error e => .error e
-    | .ok .free => .ok (setBound c b (.complete .one), .one)
-    | .ok (.complete d) => .ok (c, d)
-    | .ok (.sum _ _) =>
-      match dagChildren F c b with
-      | .error e => .error e
-      | .ok (_, none) => .error .panic
-      | .ok (c, some (l, r)) =>
+    | .ok (c, none) => finalizeYield c b .one .one
+    | .ok (c, some (l, r)) =>
       match finalizeRec F f c l with
       | .error e => .error e
       | .ok (c, dl) =>
       match finalizeRec F f c r with
       | .error e => .error e
-      | .ok (c, dr) => .ok (setBound c b (.complete (.sum dl dr)), .sum dl dr)
-    | .ok (.product _ _) =>
-      match dagChildren F c b with
-      | .error e => .error e
-      | .ok (_, none) => .error .panic
-      | .ok (c, some (l, r)) =>
-      match finalizeRec F f c l with
-      | .error e => .error e
-      | .ok (c, dl) =>
-      match finalizeRec F f c r with
-      | .error e => .error e
-      | .ok (c, dr) => .ok (setBound c b (.complete (.prod dl dr)), .prod dl dr)
+      | .ok (c, dr) => finalizeYield c b dl dr
 
 /-- `Type::finalize` -/
 def typeFinalize (F : Nat) (c : Ctx) (ty : Nat) : M (Ctx × Ty) :=
@@ -370,11 +375,17 @@ inductive Op
   | bindProduct (e a b : Nat)     -- `Context::bind_product`
 deriving Repr, DecidableEq
 
+/-- forget the returned element index -/
+def fstM (r : M (Ctx × Nat)) : M Ctx :=
+  match r with
+  | .ok (c, _) => .ok c
+  | .error e => .error e
+
 def step (F : Nat) (c : Ctx) : Op → M Ctx
   | .free => .ok (typeFree c).1
   | .complete t => .ok (typeComplete c t).1
-  | .sum a b => match typeSum F c a b with | .ok (c, _) => .ok c | .error e => .error e
-  | .product a b => match typeProduct F c a b with | .ok (c, _) => .ok c | .error e => .error e
+  | .sum a b => fstM (typeSum F c a b)
+  | .product a b => fstM (typeProduct F c a b)
   | .unify a b => unify F F c a b
   | .bindProduct e a b => bindProduct F F c e a b
 
